@@ -23,6 +23,7 @@
 import PdshVerif.Relay.TailLemmas
 import PdshVerif.Relay.LabelLemmas
 import PdshVerif.Relay.Interleave
+import PdshVerif.Relay.Simulation
 
 namespace PdshVerif.C06
 open PdshVerif.Relay
@@ -175,6 +176,18 @@ theorem records_atomic_any_schedule (cfg : Cfg) (hfix : cfg.tailSplit = false) (
   intro k script hk hdom
   rw [global_stream_is_runStream fifoOps cfg names b0 evs k script hk]
   exact records_atomic_partial cfg hfix (names k.1) (names 0) (strmNo k) (!k.2) hm1 hm2 hb0 script hdom
+
+/-- TRANSFER to the index-level relay under the buffer-level obligations of
+    Relay/Simulation.lean (property C13, not proved here; see C05.relay_lossless_index) -/
+theorem records_atomic_partial_index {R : Cbuf.Cbuf → PBuf → Prop} (hsim : Sim indexOps fifoOps R)
+    (cfg : Cfg) (hfix : cfg.tailSplit = false) (host t0host : Bytes) (strm : Nat) (readRc : Bool)
+    {sizeMeta : Nat} (hm1 : 1 ≤ sizeMeta) (hm2 : sizeMeta ≤ 800) {a0 : Cbuf.Cbuf} {b0 : PBuf}
+    (hb0 : mkFifoBuf sizeMeta = some b0) (hR : R a0 b0) (script : List Bytes)
+    (hdom : Spec.Dom05 (markerOf readRc) script.flatten = true) :
+    Spec.c06Ok (pfx cfg host) script.flatten
+      ((runStream indexOps cfg host t0host strm readRc a0 script).ems.map Em.bytes) = true := by
+  rw [(runStream_sim hsim cfg host t0host strm readRc a0 b0 hR script).1]
+  exact records_atomic_partial cfg hfix host t0host strm readRc hm1 hm2 hb0 script hdom
 
 /-! ### non-vacuity -/
 
